@@ -891,12 +891,13 @@ def c03_task(task):
         keys = [PUBS[k] for k in ks]
         ver = rng.random() < 0.25
         below = b''.join(push(rng.choice([b'\x01', b'\xff', b'\x00'])) for _ in range(rng.randint(1, max(1, m * nk)))) if rng.random() < 0.3 else b''
-        script = below + b''.join(push(s) for s in sigs) + b''.join(push(k) for k in keys) + \
+        short = m >= 1 and rng.random() < 0.08      # fewer signatures on the stack than the operand m asks for: never true
+        script = below + b''.join(push(s) for s in (sigs[:-1] if short else sigs)) + b''.join(push(k) for k in keys) + \
             op('CHECK_MULTISIG_VERIFY' if ver else 'CHECK_MULTISIG') + bytes([allowed, m, nk])
         # the property: each of the m signatures valid under a different one of the n keys (positions)
         val = [[nacl_valid(keys[j], msg_spec(0 if len(s) == 64 else s[-1], sf), s[:64]) and
                 not ((0 if len(s) == 64 else s[-1]) & ~allowed & 0xff) for j in range(nk)] for s in sigs]
-        bad_flag = any((0 if len(s) == 64 else s[-1]) & ~allowed & 0xff for s in sigs)
+        bad_flag = any((0 if len(s) == 64 else s[-1]) & ~allowed & 0xff for s in sigs) or short      # 'short' shares the expectation: never true
         match = any(all(val[i][p[i]] for i in range(m)) for p in itertools.permutations(range(nk), m))
         distinct = len(set(sigs)) == len(sigs)
         exp = match and distinct
